@@ -2,7 +2,8 @@
 (graph P, revision trees T) as a real branch, and project real repositories to the abstract content of that spec.
 
 Abstract -> real:  revision k = b"r<k>", the ghost = b"ghost9"; file f in {"a", "b"} has file id b"id-<f>", is called <f>
-(entry.alt false) or <f>x (alt true) and holds b"<f>@<content>\\n"; the root directory has id b"root-id".
+(entry.alt false) or <f>x (alt true) and holds b"<f>@<content>\\n"; file "l" is a symbolic link to "t<content>"; the root
+directory has id b"root-id".
 """
 import hashlib
 import json
@@ -44,48 +45,67 @@ def tree_of(t):
     return dict(t) if isinstance(t, dict) else {}
 
 
-def actions_for(base, want, add_root):
-    acts = []
+SYMLINKS = ("l",)      # file ids that are symbolic links; entry.content k = target "t<k>"
+
+
+def is_link(f):
+    return f in SYMLINKS
+
+
+def target_of(f, ent):
+    return "t%d" % ent["content"]
+
+
+def apply_tree(tree, base, want, add_root):
+    """Edit the (write-locked) MemoryTree, which holds the abstract tree `base`, so that it holds `want`:
+    renames, then removals, then additions, then new contents / link targets."""
     if add_root:
-        acts.append(("add", ("", ROOT_ID, "directory", None)))
-    for f in sorted(base):
-        if f not in want:
-            acts.append(("unversion", path_of(f, base[f])))
+        tree.add([""], ["directory"], ids=[ROOT_ID])
+    # MemoryTree cannot move a symlink: a renamed link is unversioned and added again under the same file id, which the
+    # commit records as the rename it is
+    relink = {f for f in want if is_link(f) and f in base and base[f]["alt"] != want[f]["alt"]}
     for f in sorted(want):
-        if f not in base:
-            acts.append(("add", (path_of(f, want[f]), b"id-" + f.encode(), "file", content_of(f, want[f]))))
+        if f in base and base[f]["alt"] != want[f]["alt"] and f not in relink:
+            tree.rename_one(path_of(f, base[f]), path_of(f, want[f]))
+    gone = [path_of(f, base[f]) for f in sorted(base) if f not in want or f in relink]
+    if gone:
+        tree.unversion(gone)
+    for f in sorted(want):
+        path = path_of(f, want[f])
+        if f not in base or f in relink:
+            tree.add([path], ["symlink" if is_link(f) else "file"], ids=[b"id-" + f.encode()])
+        elif base[f]["content"] == want[f]["content"]:
             continue
-        if base[f]["alt"] != want[f]["alt"]:
-            acts.append(("rename", (path_of(f, base[f]), path_of(f, want[f]))))
-        if base[f]["content"] != want[f]["content"]:
-            acts.append(("modify", (path_of(f, want[f]), content_of(f, want[f]))))
-    return acts
+        if is_link(f):
+            if f in base:       # retarget / rename: the old link goes away
+                tree._file_transport.delete(path_of(f, base[f]))
+            tree._file_transport.symlink(target_of(f, want[f]), path)
+        else:
+            tree.put_file_bytes_non_atomic(path, content_of(f, want[f]))
 
 
 def build_history(P, T, fmt, transport=None, branch=None, signed=()):
-    """BranchBuilder materialisation of (P, T); returns the branch (tip = the last revision)."""
-    from breezy.branchbuilder import BranchBuilder
-    bb = BranchBuilder(transport, format=fmt) if branch is None else BranchBuilder(branch=branch)
-    bb.start_series()
-    try:
+    """Materialise (P, T) by real commits from MemoryTrees; returns the branch (tip = the last revision).
+    (BranchBuilder is not used: it cannot write symlinks, nor move the branch to a revision without a revno.)"""
+    from breezy import controldir
+    if branch is None:
+        f = controldir.format_registry.make_controldir(fmt)
+        branch = controldir.ControlDir.create_branch_convenience(transport.base, format=f, force_new_tree=False)
+    with branch.lock_write():
         for k, ps in enumerate(P, 1):
-            tree = tree_of(T[k - 1])
+            want = tree_of(T[k - 1])
             left = ps[0] if ps and ps[0] != GHOST else None
             base = tree_of(T[left - 1]) if left else {}
-            parents = [rid(p) for p in ps]
-            if k == 1 and not parents:
-                parents = None
-            else:
-                # BranchBuilder's own pointer move needs a revno, which a mainline ending in a ghost does not have: move
-                # the branch to the left-hand parent here (to null: for a revision that starts from nothing; the commit
-                # only insists that the branch tip is the tree's first parent or null)
-                _move_pointer(bb, mainline_len(P, left) if left else 0, rid(left) if left else b"null:")
-            bb.build_snapshot(parents, actions_for(base, tree, left is None), revision_id=rid(k),
-                              timestamp=1000000000 + k, timezone=0, committer="C <c@e.com>", message="revision %d" % k,
-                              allow_leftmost_as_ghost=bool(ps) and ps[0] == GHOST)
-    finally:
-        bb.finish_series()
-    b = bb.get_branch()
+            # the tree starts from the left-hand parent (from nothing for a root or a ghost left-hand parent; the
+            # commit only insists that the branch tip is the tree's first parent or null)
+            branch.set_last_revision_info(mainline_len(P, left) if left else 0, rid(left) if left else b"null:")
+            tree = branch.create_memorytree()
+            with tree.lock_write():
+                if ps:
+                    tree.set_parent_ids([rid(p) for p in ps], allow_leftmost_as_ghost=ps[0] == GHOST)
+                apply_tree(tree, base, want, left is None)
+                tree.commit("revision %d" % k, rev_id=rid(k), timestamp=1000000000 + k, timezone=0, committer="C <c@e.com>")
+    b = branch
     if signed:
         repo = b.repository
         with repo.lock_write():
@@ -116,17 +136,6 @@ def mainline_has_ghost(P, k):
             return True
         k = P[k - 1][0]
     return False
-
-
-def _move_pointer(bb, revno, revid):
-    if bb._branch.last_revision() == revid:
-        return
-    with bb._branch.lock_write():
-        bb._branch.set_last_revision_info(revno, revid)
-    new_tree = bb._branch.create_memorytree()
-    new_tree.lock_write()
-    bb._tree.unlock()
-    bb._tree = new_tree
 
 
 def read_graph(repo, n):
@@ -180,7 +189,8 @@ def tree_digest(tree):
     out = []
     with tree.lock_read():
         for path, ie in tree.iter_entries_by_dir():
-            text = sha(tree.get_file_text(path)) if ie.kind == "file" else ""
+            text = sha(tree.get_file_text(path)) if ie.kind == "file" else \
+                (tree.get_symlink_target(path) if ie.kind == "symlink" else "")
             out.append([path, ie.file_id.decode(), ie.kind, text, bool(getattr(ie, "executable", False)),
                         ie.revision.decode() if path != "" else ""])
     return sha(json.dumps(out).encode())
